@@ -33,6 +33,7 @@ type Options struct {
 	SchedNondet   bool
 	Preempt       int
 	NoTimers      bool
+	RealQueries   bool // run the real pubsub query parser (default: queries built at package init are opaque)
 	Verbose       bool
 	Trace         bool
 	TimeoutMs     int
